@@ -250,7 +250,19 @@ pub fn gen_recover(rng: &mut Rng) -> G {
         _ => gen_item(rng, 1),
     });
     let r = G::Recover(rng.below(4) as u8, inner, gen_rec(rng));
-    match rng.below(8) {
+    match rng.below(10) {
+        // a second, different recovery on the lexer the first one left recovering (no stabilising
+        // parser in between): with or without plain tokens consumed between the two
+        8 | 9 => {
+            let inner2 = Box::new(match rng.below(3) { 0 => G::One(0), 1 => G::Seq(vec![1, 0]), _ => gen_item(rng, 1) });
+            let r2 = G::Recover(rng.below(4) as u8, inner2, gen_rec(rng));
+            let second = match rng.below(3) {
+                0 => r2,
+                1 => G::Right(Box::new(G::Any(vec![4, 5, 0, 3])), Box::new(r2)),
+                _ => G::Right(Box::new(G::Repeat(0, 0, Some(2), Box::new(G::Any(vec![4, 5])))), Box::new(r2)),
+            };
+            G::Both(Box::new(r), Box::new(second))
+        }
         // the recovery token is consumed by a plain parser, then a stabilising parser runs on the
         // still-recovering lexer
         6 => G::Both(Box::new(r), Box::new(G::Right(Box::new(G::Any(vec![4, 5])), Box::new(G::Stabilize(Box::new(gen_item(rng, 1))))))),
